@@ -6,7 +6,14 @@
    (Model/CborEnc.v), the indefinite-length array of the path, CRC-32 envelope, Base58.
    Decoding of untrusted CBOR is done by cbor2 in the library and is an oracle here ([parse_outer],
    [parse_payload], [parse_bytes]): each answers None unless the input is well-formed CBOR of the shape the
-   library then insists on.  Hashes, PBKDF2, ChaCha20-Poly1305 and CRC-32 are oracles. *)
+   library then insists on.  Hashes, PBKDF2, ChaCha20-Poly1305 and CRC-32 are oracles.
+
+   The decoder is modelled as property C14 demands: EVERY input that is not well-formed CBOR of the expected shape
+   (tag 24 around a byte string, CRC-32, [28-byte hash, attribute map with byte-string values, type]) is a ValueError.
+   The code as it stands lets TypeError escape when the tagged value, an attribute value, or the content of attribute 1
+   is not a byte string (finding C14-BYRON-ATTRS), and lets cbor2's own TypeError / OverflowError / decimal exceptions
+   escape on ill-typed decimal-fraction / bigfloat tags (finding C14-BYRON-CBOR2-EXC); the correspondence run of
+   harness/props/C14.py (CBOR-level mutations under a valid CRC) shows both divergences. *)
 From Coq Require Import NArith ZArith Arith List Bool.
 From BU Require Import Base.Exn Base.Radix Base.Bytes Gen.Consts Gen.ConstsCardmon.
 From BU Require Import Model.EdLib Model.CborEnc Model.Bip32Kholaw.
@@ -72,7 +79,10 @@ Section Byron.
   (* [bytes root, dict attrs, int type] with len(attrs) <= 2 and (empty or 1 in attrs or 2 in attrs):
      (root, value stored under key 1 if any, type) *)
   Variable parse_payload : list N -> option (list N * option (list N) * N).
-  Variable parse_bytes : list N -> option (list N).                  (* a CBOR byte string *)
+  (* cbor2.loads of the value of attribute 1, as far as the decoder's result goes: the content of a CBOR byte string;
+     the empty string for CBOR null (the library then has hd_path_enc_bytes = None and appends nothing); None = any
+     other item (the property demands ValueError; finding C14-BYRON-ATTRS: today a TypeError) or malformed CBOR *)
+  Variable parse_bytes : list N -> option (list N).
 
   (* _AdaByronAddrHdPath.Encrypt / Decrypt *)
   Definition encrypt_path (key : list N) (path : list N) : list N :=
